@@ -26,6 +26,10 @@ from spil.sid.pathops.pathconfig import get_path_config
 
 logging.getLogger("resolva").setLevel(logging.ERROR)
 
+if os.environ.get("SPIL_VERIF_MAXSIZE"):      # harness-side: shrink the caches to force eviction
+    from spil.util import caching as _caching
+    _caching._max_size = int(os.environ["SPIL_VERIF_MAXSIZE"])
+
 import spil_sid_conf as _raw
 CONF_DIR = os.path.dirname(os.path.abspath(_raw.__file__)).replace(os.sep, "/")
 
@@ -126,7 +130,10 @@ def sid_call(j):
             return jsid(x.get_with(key=k, value=v))
         return jsid(x.get_with(**kw))
     if m == "path":
-        p = x.path(j["config"]) if j.get("config") is not None else x.path()
+        if j.get("kw"):
+            p = x.path(config=j.get("config"))
+        else:
+            p = x.path(j["config"]) if j.get("config") is not None else x.path()
         return None if p is None else to_canon(str(p))
     if m == "match":
         return x.match(j["search"])
@@ -297,8 +304,26 @@ def step(j):
         return sid_call(j)
     if op == "path_to_dict":
         from spil.sid.pathops import fs_resolver
-        t, data = fs_resolver.path_to_dict(to_real(j["path"]), j.get("type"), config=j.get("config"))
+        if j.get("kw") == "all":
+            t, data = fs_resolver.path_to_dict(path=to_real(j["path"]), _type=j.get("type"), config=j.get("config"))
+        elif j.get("kw") == "none":
+            t, data = fs_resolver.path_to_dict(to_real(j["path"]), j.get("type"), j.get("config"))
+        else:
+            t, data = fs_resolver.path_to_dict(to_real(j["path"]), j.get("type"), config=j.get("config"))
         return None if not t else [t, jdict(data)]
+    if op == "sid_to_dict":
+        if j.get("kw"):
+            t, data = sid_resolver.sid_to_dict(j["s"], _type=j.get("type"))
+        elif j.get("type") is not None:
+            t, data = sid_resolver.sid_to_dict(j["s"], j.get("type"))
+        else:
+            t, data = sid_resolver.sid_to_dict(j["s"])
+        return None if not t else [t, jdict(data)]
+    if op == "find_partial":
+        f = FindInList(list(j["l"]))
+        g = f.find(j["s"], as_sid=False)
+        first = next(g, None)
+        return first
     if op == "to_dict":
         return jdict(query_helper.to_dict(j["q"]))
     if op == "to_string":
